@@ -5,11 +5,12 @@ from .lib import PLUMBING, operand_local, root_fn
 from .lib_c08 import ChainOps, Flow, Origins, controllers, field_writes, gen_role, map_stores, root_of
 
 LEVEL = "other"
-TECHNIQUE = ("static analysis: field-sensitive interprocedural source->sink mapping of the converter extracted from MIR and compared with a frozen table; "
+TECHNIQUE = ("static analysis: field-sensitive interprocedural source->sink mapping of the converter extracted from MIR (projection-carrying slices that also follow accumulators "
+             "filled through `&mut` in loops; post-dominator control dependence; unknown helpers inlined) and compared with a frozen table; "
              "source field list taken from the compiled schemars ADTs; decision tables (instance type -> OpenAPI type, format string -> typed format) extracted from the CFG")
 LEVEL_TEXT = ("Decides, for every write of a field of an openapiv3 schema type in the call-graph closure of schema_util::j2oas_schema, exactly which fields of the compiled "
               "schemars::schema::{SchemaObject, Metadata, SubschemaValidation, NumberValidation, StringValidation, ArrayValidation, ObjectValidation} it is computed from "
-              "(data flow; for constant-valued flags the controlling predicates), and that this mapping equals the reviewed table: no enumerated keyword or annotation is dropped, "
+              "(data flow — an iterator chain + collect and a `for` loop pushing into an accumulator are the same flow; for constant-valued flags the controlling predicates), and that this mapping equals the reviewed table: no enumerated keyword or annotation is dropped, "
               "swapped or fed from a different keyword, and (R1b) that the value travels only through value-preserving operations — no filter, comparison, arithmetic, clamp or substituted "
               "constant, helpers and closures included; every field of those source structs is mapped, selects the output kind, or is on the documented "
               "not-representable-in-OpenAPI-3.0 list (a field added by a schemars upgrade is reported); every nested schema position recurses through the converter; "
@@ -638,6 +639,9 @@ def r4_tables(ctx):
 RULES = [("C08.R1", r1_mapping), ("C08.R1b", r1b_carried_unmodified), ("C08.R2", r2_recursion), ("C08.R3", r3_single_entry), ("C08.R4", r4_tables)]
 
 SU = "dropshot/src/schema_util.rs"
+_EXT = "    data.extensions = obj\n        .extensions\n        .iter()\n        .filter(|(key, _)| key.starts_with(\"x-\"))\n        .map(|(key, value)| (key.clone(), value.clone()))\n        .collect();\n"
+_PROPS = ("                properties: obj\n                    .properties\n                    .iter()\n                    .map(|(prop, schema)| {\n                        (\n                            prop.clone(),\n"
+          "                            box_reference_or(j2oas_schema(None, schema)),\n                        )\n                    })\n                    .collect::<_>(),\n")
 SELFTEST = [
     {"name": "maxlength-from-minlength", "kind": "mutant", "edits": [(SU, "string.max_length.map(|n| n as usize),", "string.min_length.map(|n| n as usize),")],
      "expect": ["C08.R1"], "why": "maxLength is published with the value of minLength (constraint altered, maxLength dropped)"},
@@ -703,4 +707,27 @@ SELFTEST = [
      "why": "behaviour-preserving: the widening cast is moved into a shared helper"},
     {"name": "extra-read", "kind": "benign", "edits": [(SU, "    let mut data = openapiv3::SchemaData::default();\n", "    let _has_format = obj.format.is_some();\n    let mut data = openapiv3::SchemaData::default();\n")],
      "why": "behaviour-preserving: an unused extra read"},
+    # --- idioms the rules accept since the hardening round (each shape has a breaking twin)
+    {"name": "extensions-for-loop", "kind": "benign",
+     "edits": [(SU, _EXT, "    for (key, value) in obj.extensions.iter() {\n        if !key.starts_with(\"x-\") {\n            continue;\n        }\n        data.extensions.insert(key.clone(), value.clone());\n    }\n")],
+     "why": "behaviour-preserving: filter/map/collect into the (empty) default map == a for loop inserting the kept pairs"},
+    {"name": "extensions-for-loop-negated", "kind": "mutant",
+     "edits": [(SU, _EXT, "    for (key, value) in obj.extensions.iter() {\n        if key.starts_with(\"x-\") {\n            continue;\n        }\n        data.extensions.insert(key.clone(), value.clone());\n    }\n")],
+     "expect": ["C08.R1"], "why": "every extension EXCEPT the x- ones is published"},
+    {"name": "properties-for-loop", "kind": "benign",
+     "edits": [(SU, _PROPS, "                properties: {\n                    let mut properties = indexmap::IndexMap::new();\n                    for (prop, schema) in obj.properties.iter() {\n                        properties.insert(prop.clone(), box_reference_or(j2oas_schema(None, schema)));\n                    }\n                    properties\n                },\n")],
+     "why": "behaviour-preserving: map/collect == for loop filling an accumulator"},
+    {"name": "properties-for-loop-skips", "kind": "mutant",
+     "edits": [(SU, _PROPS, "                properties: {\n                    let mut properties = indexmap::IndexMap::new();\n                    for (prop, schema) in obj.properties.iter() {\n                        if prop.len() > 3 {\n                            properties.insert(prop.clone(), box_reference_or(j2oas_schema(None, schema)));\n                        }\n                    }\n                    properties\n                },\n")],
+     "expect": ["C08.R1b"], "why": "properties with short names are dropped by a comparison inside the loop"},
+    {"name": "properties-for-loop-no-recursion", "kind": "mutant",
+     "edits": [(SU, _PROPS, "                properties: {\n                    let mut properties = indexmap::IndexMap::new();\n                    for (prop, _schema) in obj.properties.iter() {\n                        properties.insert(prop.clone(), box_reference_or(j2oas_schema(None, &schemars::schema::Schema::Bool(true))));\n                    }\n                    properties\n                },\n")],
+     "expect": ["C08.R2", "C08.R1"], "why": "every property is published with the permissive schema: nested constraints dropped"},
+    {"name": "integer-bound-helper", "kind": "benign",
+     "edits": [(SU, "fn j2oas_number(\n", "fn j2oas_integer_bound(\n    inclusive: Option<f64>,\n    exclusive: Option<f64>,\n) -> (Option<i64>, bool) {\n    match (inclusive, exclusive) {\n        (None, None) => (None, false),\n        (Some(f), None) => (Some(f as i64), false),\n        (None, Some(f)) => (Some(f as i64), true),\n        _ => panic!(\"invalid\"),\n    }\n}\n\nfn j2oas_number(\n"),
+               (SU, "                let (minimum, exclusive_minimum) =\n                    match (number.minimum, number.exclusive_minimum) {\n                        (None, None) => (None, false),\n                        (Some(f), None) => (Some(f as i64), false),\n                        (None, Some(f)) => (Some(f as i64), true),\n                        _ => panic!(\"invalid\"),\n                    };\n", "                let (minimum, exclusive_minimum) =\n                    j2oas_integer_bound(number.minimum, number.exclusive_minimum);\n")],
+     "why": "behaviour-preserving: the (value, flag) pair is computed by an extracted helper and travels through a tuple"},
+    {"name": "nullable-assigned", "kind": "benign",
+     "edits": [(SU, "    if matches!(\n        &obj.extensions.get(\"nullable\"),\n        Some(serde_json::Value::Bool(true))\n    ) {\n        data.nullable = true;\n    }\n", "    data.nullable = matches!(\n        &obj.extensions.get(\"nullable\"),\n        Some(serde_json::Value::Bool(true))\n    );\n")],
+     "why": "behaviour-preserving: the default is false, so `if p { f = true }` == `f = p`"},
 ]
